@@ -8,7 +8,9 @@ SSA cfg; the hypotheses of the theorems (`keys_distinct`,
 
 Oracle (independent of model and IR): the generator (c08gen.py) records, while
 it writes the text, the byte range of every `<--`/`-->` assignment and of every
-constraint statement together with the signals it mentions.  The real findings
+constraint statement together with the signals it mentions (occurrences in the
+written text, inside index expressions included - never the implementation's
+signals_read).  The real findings
 — in process, and for a subset end to end through the CLI binary
 (`--verbose --sarif-file`) — must be exactly one per recorded assignment,
 anchored at its range, CS0013 without secondaries or CS0005 with exactly the
@@ -74,7 +76,7 @@ def parse_impl(line):
         else:
             defs[name] = {"kind": d[1], "reports": parse_reports(body[2]), "raw": sexp.show(body[2]),
                           "pass_panics": int(body[3]), "keys": py_keys_distinct(body[1]),
-                          "ckind": body[1][1], "subkeys": py_assign_subkeys(body[1])}
+                          "ckind": body[1][1], "subkeys": py_assign_subkeys(body[1]), "ops": py_signal_ops(body[1])}
     return {"defs": defs, "parse_reports": int(x[2]), "mode": x[1]}
 
 
@@ -123,13 +125,50 @@ def py_assign_subkeys(cfg):
     return out
 
 
+def py_signal_ops(cfg):
+    """(start, end, op) of every `<--` (sig) and `<==` (csig) substitution of a dumped cfg, in block order."""
+    out = []
+    for b in cfg[4][1:]:
+        for s in b[3]:
+            if s[0] == "subst" and s[3] in ("sig", "csig"):
+                out.append((int(s[1][1]), int(s[1][2]), s[3]))
+    return out
+
+
+PRE_SSA_SUBST = re.compile(r"\(subst \(m (\d+) (\d+) [^()]*\) \(v [^()]*\) (sig|csig) ")
+
+
+def pre_ssa_signal_ops(res):
+    """The same list read off the standard dump (` C (cfg ..`) of the graph the REAL `into_cfg` returned,
+    as printed by the liftfull harness (the graph BEFORE SSA); None when there is no graph."""
+    i = res.find(" C (cfg ")
+    if not res.startswith("(ok ") or i < 0:
+        return None
+    j = res.find(" R (reports", i)
+    return [(int(a), int(b), op) for a, b, op in PRE_SSA_SUBST.findall(res[i:j if j > 0 else len(res)])]
+
+
+def strip_brackets(acc):
+    """An access text without its index expressions: `[cs[1].out1].in1[u0]` -> `.in1`."""
+    out, depth = [], 0
+    for ch in acc:
+        if ch == "[":
+            depth += 1
+        elif ch == "]":
+            depth -= 1
+        elif depth == 0:
+            out.append(ch)
+    return "".join(out)
+
+
 def source_subkeys(defn):
     """The same sub-keys read off the generator's records of what it wrote
     (name None: an input of an anonymous component, whose name is generated)."""
     out = []
     for a in defn["assigns"]:
         name, acc = a["key"]
-        out.append((tuple(a["anchor"]), None if name.startswith("<") else name, tuple(re.findall(r"\.(\w+)", acc))))
+        out.append((tuple(a["anchor"]), None if name.startswith("<") else name,
+                    tuple(re.findall(r"\.(\w+)", strip_brackets(acc)))))
     return out
 
 
@@ -229,24 +268,28 @@ def hypothesis_exempt(defn, listed):
 # ----------------------------------------------------------------------------
 
 def offsets(src):
-    starts = [0]
-    for i, c in enumerate(src):
-        if c == "\n":
-            starts.append(i + 1)
-    return starts
+    """(byte offset at which every line starts, the lines): SARIF regions are (line, column) with columns
+    counted in CHARACTERS (codespan), the recorded ranges are BYTE offsets of the UTF-8 text."""
+    lines = src.split("\n")
+    starts, pos = [], 0
+    for ln in lines:
+        starts.append(pos)
+        pos += len(ln.encode("utf-8")) + 1
+    return starts, lines
 
 
-def region(reg, starts):
-    s = starts[reg["startLine"] - 1] + reg["startColumn"] - 1
-    e = starts[reg["endLine"] - 1] + reg["endColumn"] - 1
-    return (s, e)
+def region(reg, index):
+    starts, lines = index
+    def off(line, col):
+        return starts[line - 1] + len(lines[line - 1][:col - 1].encode("utf-8"))
+    return (off(reg["startLine"], reg["startColumn"]), off(reg["endLine"], reg["endColumn"]))
 
 
 def run_cli(cli, workdir, idx, src):
     d = os.path.join(workdir, "e2e%d" % idx)
     os.makedirs(d, exist_ok=True)
     path = os.path.join(d, "input.circom")
-    with open(path, "w") as f:
+    with open(path, "w", encoding="utf-8") as f:
         f.write(src)
     sarif = os.path.join(d, "out.sarif")
     rc, out, err = common.sh([cli, "--verbose", "--sarif-file", sarif, path], timeout=120)
@@ -393,10 +436,15 @@ def run(ctx, proofs):
     e2e_pool = []
     sample = None
     lf_sources, lf_exempt = [], set()     # for the hypothesis of the C08_liftfull_* theorems, below
+    ssa_ops = {}                          # (source, definition name) -> (start, end, op) of the sig / csig substitutions of the SSA cfg
+    dropped = collections.Counter()       # everything this run leaves out of a comparison, by reason
     triples = ((c, im, mo) for batch in batches() for c, im, mo in zip(batch, *evaluate(batch, harness, model)))
     for c, im, mo in triples:
-        if len(e2e_pool) < 4 * (96 if quick else 600) and not any(c08gen.known_classes(d) for d in c["defs"]) \
-                and not c["origin"].startswith("corpus"):
+        if c["origin"].startswith("corpus"):
+            pass
+        elif any(c08gen.known_classes(d) for d in c["defs"]):
+            dropped["file kept out of the CLI end-to-end pool: holds a known-finding shape (judged in process)"] += 1
+        elif len(e2e_pool) < 4 * (96 if quick else 600):
             e2e_pool.append(c)
         if sample is None and c["origin"].startswith("generated"):
             sample = c
@@ -415,6 +463,8 @@ def run(ctx, proofs):
             got = im["defs"].get(name)
             stats["definitions"] += 1
             if got is None:
+                dropped["definition written by the generator but absent from the front end's output "
+                        "(a failure when it holds `<--`, otherwise only counted)"] += 1
                 if c08gen.expected(defn):
                     failing.append({"input": c["src"], "origin": c["origin"], "definition": name,
                                     "impl": "definition dropped by the front end", "spec": c08gen.expected(defn)})
@@ -423,6 +473,7 @@ def run(ctx, proofs):
             mgot = mo.get(name, {})
             if "liftfail" not in got:
                 stats["lifted"] += 1
+                ssa_ops[(c["src"], name)] = got["ops"]
                 if got["pass_panics"]:
                     stats["pass_panics"] += 1
                 if mgot.get("raw") != got["raw"]:
@@ -482,6 +533,23 @@ def run(ctx, proofs):
                 forms[a["form"]] += 1
                 if a.get("dup"):
                     shapes["same target in several branches: " + a["dup"]] += 1
+                if defn["kind"] == "template":
+                    for flag, label in (("tagged", "`<--` to a signal declared with tags"),
+                                        ("index_signal", "`<--` to an element whose index holds a signal"),
+                                        ("index_local", "`<--` to an element whose index holds a local variable"),
+                                        ("idx_mention", "`S <-- e` followed by a constraint that mentions S only inside an index")):
+                        if a.get(flag):
+                            shapes[label] += 1
+                    if a["key"][0] == "q0":
+                        shapes["`<--` to an element of a 3-dimensional signal"] += 1
+                    if a["key"][0] == "cm":
+                        shapes["`<--` to a port of a 2-dimensional component array"] += 1
+            if defn["kind"] == "template":
+                akeys = [a["key"] for a in defn["assigns"]]
+                inner_only = sum(1 for con in defn["constraints"] for k in con.get("only_in_index", []) if k in akeys)
+                if inner_only:
+                    stats["secondaries_demanded_through_an_index_only"] += inner_only
+                    shapes["constraint mentions the assigned signal only inside an index"] += 1
             if "header" in defn:
                 shapes["header `%s`" % defn["header"].strip()] += 1
                 if defn["kind"] == "template" and defn.get("parallel"):
@@ -500,9 +568,15 @@ def run(ctx, proofs):
                     if sec:
                         stats["CS0005_with_secondaries"] += 1
                     by_anchor[prim[0]].append((code, min(len(set(sec)), 4)))
+                akeys_io = {tuple(k) for con in defn["constraints"] for k in con.get("only_in_index", [])}
                 for a in defn["assigns"]:
                     for code, nsec in by_anchor.get(tuple(a["anchor"]), []):
-                        nontrivial.add((a["form"], "[" in a["key"][1], "." in a["key"][1], "#" in a["key"][1], code, nsec))
+                        if code == "CS0005" and nsec and tuple(a["key"]) in akeys_io and defn["kind"] == "template":
+                            stats["CS0005_with_secondary_through_index_only"] += 1
+                        if code == "CS0005" and nsec and a.get("tagged"):
+                            stats["CS0005_tagged_with_secondaries"] += 1
+                        nontrivial.add((a["form"], "[" in a["key"][1], "." in a["key"][1], "#" in a["key"][1], code, nsec,
+                                        bool(a.get("tagged")), bool(a.get("index_signal")), bool(a.get("index_local"))))
 
     # The hypothesis of C08_liftfull_distinct_sources_distinct_subkeys - no two `<--` / `-->` statements of the
     # syntax tree handed to lifting carry the same meta - EVALUATED (Model.SigAssignSource.source_metas_distinct_b,
@@ -516,15 +590,65 @@ def run(ctx, proofs):
           "arrow_statements": 0}
     lf_rows, lf_status = liftfull_engine.flags_for_sources(common, lf_sources)
     lf["sources_without_definitions"] = dict(lf_status)
+    if lf_status:
+        # every source of this stage was analysed by the sigassign harness; the liftfull harness must read it too
+        hyp_broken.append({"input": None, "origin": "liftfull stage", "definition": "-",
+                           "hypothesis": "the liftfull harness gave no definition for %d source(s) the sigassign harness "
+                                         "analysed: %s" % (sum(lf_status.values()), dict(lf_status))})
     lf_seen = set()
     lf_unmet_sample = None
+    # Third audit.  (1) THE TIE of Model.LiftFull on C08's own definitions (the C08_liftfull_* and C08_source_to_ssa_*
+    # theorems speak about that mirror; the stage of ./check C13 runs on C13's programs): the text the extracted
+    # mirror prints for the desugared definition must be the text the harness prints for the REAL into_cfg.
+    # (2) THE CONCLUSION of C08_ssa_keeps_operators / C08_ssa_keeps_signal_assignments on the REAL graphs: the
+    # (location, operator) sequence of the `<--` / `<==` substitutions of the real graph before SSA (liftfull
+    # harness) and of the real SSA graph (sigassign harness) are equal, definition by definition.
+    tie = {"definitions_compared": 0, "disagreements": 0, "errors_compared_by_kind_only": 0, "first_disagreement": None,
+           "flag_failures": 0, "first_flag_failure": None}
+    ssa = {"definitions_compared": 0, "substitutions_compared": 0, "differences": 0, "no_graph_before_ssa": 0,
+           "no_ssa_graph": 0, "first_difference": None}
     for row in lf_rows:
         if (row["src"], row["def"]) in lf_seen:
+            dropped["liftfull row skipped: the same definition text of the same source seen before"] += 1
             continue
         lf_seen.add((row["src"], row["def"]))
         fl = row["flags"]
         lf["definitions"] += 1
         dname = row["def"].split(" ")[2] if row["def"].startswith("(def ") else "?"
+        text, real = row["model"], row["impl"]
+        if text.startswith("(panic) site "):
+            text = "(panic)"
+        if real.startswith("(err "):
+            k_err = real[5:].split(" ", 1)[0].rstrip(")")
+            if text == "(err %s)" % k_err and real.startswith("(err %s (rep " % k_err):
+                tie["errors_compared_by_kind_only"] += 1     # as lib/props/liftfull_engine.run does (invalid-name)
+                text = real
+        tie["definitions_compared"] += 1
+        if fl.get("WF") != "1" or (real.startswith("(ok ") and (fl.get("SK") != "1" or fl.get("PV") != "1")):
+            tie["flag_failures"] += 1
+            if tie["first_flag_failure"] is None:
+                tie["first_flag_failure"] = {"origin": row["label"], "definition": dname, "src": row["src"], "flags": fl}
+        if text != real:
+            tie["disagreements"] += 1
+            if tie["first_disagreement"] is None:
+                i = liftfull_engine.first_difference(text, real)
+                tie["first_disagreement"] = {"origin": row["label"], "definition": dname, "src": row["src"],
+                                             "first_difference_at": i, "impl": real[max(0, i - 150):i + 250],
+                                             "model": text[max(0, i - 150):i + 250]}
+        pre = pre_ssa_signal_ops(real)
+        post = ssa_ops.get((row["src"], dname))
+        if pre is None:
+            ssa["no_graph_before_ssa"] += 1
+        elif post is None:
+            ssa["no_ssa_graph"] += 1
+        else:
+            ssa["definitions_compared"] += 1
+            ssa["substitutions_compared"] += len(pre)
+            if pre != post:
+                ssa["differences"] += 1
+                if ssa["first_difference"] is None:
+                    ssa["first_difference"] = {"origin": row["label"], "definition": dname, "src": row["src"],
+                                               "before_ssa": pre[:12], "after_ssa": post[:12]}
         sd, skd, sn = fl.get("SD"), fl.get("SKD"), int(fl.get("SN", "0") or 0)
         if sd not in ("0", "1"):
             hyp_broken.append({"input": row["src"], "origin": row["label"], "definition": dname,
@@ -554,6 +678,35 @@ def run(ctx, proofs):
                                    "hypothesis": "source metas of the `<--` statements not distinct AND subkeys_distinct of the "
                                                  "lifted graph false, outside the known-finding class"})
     lf["unmet_sample"] = lf_unmet_sample
+    lf["mirror_vs_real_into_cfg"] = tie
+    lf["operators_kept_by_real_into_ssa"] = ssa
+    if tie["disagreements"]:
+        # the source on which mirror and implementation differ IS the failing input of the correspondence
+        d = tie["first_disagreement"]
+        ctx.violation("stage liftfull on C08's own definitions: Model.LiftFull and the real into_cfg disagree on %d definition(s) "
+                      "(the C08_liftfull_* / C08_source_to_ssa_* theorems speak about that mirror); first: %s definition %s"
+                      % (tie["disagreements"], d["origin"], d["definition"]),
+                      {"input": d["src"], "liftfull_src": d["src"], "impl": d["impl"],
+                       "spec": "Model.LiftFull (extracted) prints: ..." + d["model"],
+                       "broken": "correspondence liftfull (Model.LiftFull vs into_cfg)", "first": d})
+    if tie["flag_failures"]:
+        d = tie["first_flag_failure"]
+        hyp_broken.append({"input": d["src"], "origin": d["origin"], "definition": d["definition"],
+                           "hypothesis": "definition_wf / the proved equations SK, PV of Model.LiftFull evaluate to false on %d of "
+                                         "C08's definitions: %s" % (tie["flag_failures"], d["flags"])})
+    # ... and the reduced run of C13's stage itself (fixed shapes, corpus/C13/liftfull-*, a seeded sample, both modes):
+    # reports its own violations, with the source as failing input
+    lf_tie = liftfull_engine.require_tie(common, ctx, "C08", extra_sources=[])
+    if ssa["differences"]:
+        d = ssa["first_difference"]
+        failing.append({"input": d["src"], "origin": d["origin"], "definition": d["definition"],
+                        "why": "the real into_ssa does not keep the `<--` / `<==` substitutions of the graph it is given "
+                               "(conclusion of C08_ssa_keeps_operators on the real graphs): before %s after %s"
+                               % (d["before_ssa"], d["after_ssa"]),
+                        "impl": d["after_ssa"], "spec": None})
+    if ssa["definitions_compared"] == 0:
+        hyp_broken.append({"input": None, "origin": "liftfull stage", "definition": "-",
+                           "hypothesis": "degenerate: the graphs before and after SSA were compared on no definition"})
     if lf["definitions_with_arrow"] == 0 or lf["hypothesis_met"] == 0:
         hyp_broken.append({"input": None, "origin": "liftfull stage", "definition": "-",
                            "hypothesis": "degenerate: the hypothesis of the C08_liftfull theorems was evaluated on no definition "
@@ -586,10 +739,20 @@ def run(ctx, proofs):
     # the deliberate shapes must have been generated (not left to luck)
     required = ["header `template`", "header `template parallel`", "header `template custom`",
                 "header `template custom parallel`", "same target in several branches: scalar",
-                "same target in several branches: elem-loop", "same target in several branches: port"]
+                "same target in several branches: elem-loop", "same target in several branches: port",
+                # third audit: each is the only witness of some edit outside signal_assignments.rs
+                "`<--` to a signal declared with tags", "`<--` to an element whose index holds a signal",
+                "`<--` to an element whose index holds a local variable",
+                "`S <-- e` followed by a constraint that mentions S only inside an index",
+                "constraint mentions the assigned signal only inside an index",
+                "`<--` to an element of a 3-dimensional signal", "`<--` to a port of a 2-dimensional component array"]
     missing = [k for k in required if not shapes[k]]
     if not stats["findings_demanded_in_parallel_templates"]:
         missing.append("`<--` inside a parallel template")
+    if not stats["CS0005_with_secondary_through_index_only"]:
+        missing.append("a CS0005 finding one of whose secondaries mentions the signal only inside an index")
+    if not stats["CS0005_tagged_with_secondaries"]:
+        missing.append("a CS0005 finding with secondaries for a signal declared with tags")
     if missing:
         hyp_broken.append({"input": None, "origin": "generator", "definition": "-",
                            "hypothesis": "generator c08gen no longer writes the shapes %s" % missing})
@@ -675,6 +838,25 @@ def run(ctx, proofs):
         "definition_types_checked_against_header": stats["definition_types_checked"],
         "hypothesis_evaluations": stats["hypothesis_evaluations"],
         "liftfull_hypothesis": lf,
+        "liftfull_tie": lf_tie,
+        "findings_judged_for_new_shapes": {
+            "CS0005 with a secondary that mentions the signal only inside an index": stats["CS0005_with_secondary_through_index_only"],
+            "CS0005 with secondaries for a tagged signal": stats["CS0005_tagged_with_secondaries"],
+            "secondaries demanded through an index only": stats["secondaries_demanded_through_an_index_only"]},
+        "left_out_of_a_comparison": dict(dropped),
+        "open_statements": [
+            "constraint_keys_distinct (no two constraint statements of one SSA cfg compare equal) is a hypothesis of "
+            "C08_sigassign_bijection that is evaluated on every dumped cfg, not derived from the source",
+            "the step through SSA is proved for the statements' locations and operators (C08_ssa_keeps_operators, "
+            "C08_source_to_ssa_signal_assignments, over Model.Ssa, tied to the real into_ssa by ./check C14 and, for the "
+            "`<--` / `<==` substitutions, evaluated here on the real graphs before and after SSA); that SSA keeps the "
+            "ACCESS of a `<--` target up to versions, and the declaration table the pass classifies uses with, is not "
+            "stated in Coq (Model.Ssa returns no declaration table): the bijection theorem takes the SSA graph as it is dumped",
+            "tuple / anonymous-component forms and `anchored at the call` are produced by the desugarer: covered by the "
+            "generator's ground truth and C18's theorems, no C08 theorem speaks about the tree before desugaring",
+            "claimed_quadratic (the degree claim that selects CS0013 vs CS0005) is the knowledge the degree pass attached: "
+            "its meaning is C07 / C20",
+        ],
         "source_statements_matched_with_cfg_statements": stats["source_statements_matched"],
         "keys_not_distinct_in_known_class": stats["keys_not_distinct_in_known_class"],
         "known_finding_witness_vs_coq_term": kf_witness(harness),
@@ -708,15 +890,32 @@ def run(ctx, proofs):
         "HashSet iteration order only permutes reports and secondary labels; both sides are sorted before comparison",
         "templates whose CFG/SSA construction fails are not analysed at all (C02/C18 territory); the theorems speak "
         "about cfgs that exist",
-        "'constraint statements mentioning the assigned signal' is read as the code reads it: same variable name and "
-        "syntactically equal access (DESIGN 5.3); the generator keeps index variables unmodified inside loop bodies so "
-        "that textual and IR equality coincide",
+        "'constraint statements mentioning the assigned signal' is read as: the statement's text contains a reference "
+        "with the same variable name and a syntactically equal access, anywhere - operand, left-hand side, or inside an "
+        "index expression of another reference (`t[s] === y` mentions s); the generator records occurrences of the text "
+        "it writes, it never asks the implementation what it read (DESIGN 5.3); index expressions hold constants, loop "
+        "variables and locals that are never reassigned, signals and `SIGNAL + 1`, so textual and IR equality coincide",
+        "hypotheses of the theorems through SSA (C08_ssa_keeps_operators, C08_ssa_keeps_signal_assignments, "
+        "C08_source_to_ssa_signal_assignments): `Model.Ssa.into_ssa frontier children c = SOk c'` and `c_blocks g = "
+        "c_blocks c'` relate the mirror's output to the dumped real SSA graph; they are NOT evaluated by this check "
+        "(./check C14 runs Model.Ssa on the real graphs with the real tables and compares); what this check evaluates "
+        "instead is their CONCLUSION on the real graphs: the (location, operator) sequence of the `<--` / `<==` "
+        "substitutions before SSA (liftfull harness) and after SSA (sigassign harness) are equal on every definition "
+        "(coverage liftfull_hypothesis.operators_kept_by_real_into_ssa)",
+        "Model.LiftFull is tied to the real into_cfg inside this check: on every definition of the run's own sources "
+        "(coverage liftfull_hypothesis.mirror_vs_real_into_cfg, desugared mode) and by the reduced run of C13's stage "
+        "(coverage liftfull_tie: fixed shapes, corpus, seeded sample, both modes); a disagreement is a violation with "
+        "the source as failing input",
+        "type_meta.rs `TypeKnowledge::is_signal` is not read by the pass or by cache_variable_use (they match on "
+        "variable_type() directly): an edit there cannot change a CS0005 / CS0013 finding and is not C08's to catch",
     ]
 
 
 def replay(ctx, rep):
     harness = common.build_harness("sigassign")
     model = common.build_model("sigassign")
+    if rep.get("liftfull_src"):
+        return liftfull_engine.replay_tie(common, rep)
     src = rep.get("input")
     if not src:
         print("replay names a broken obligation, not an input:", rep.get("broken"))
